@@ -858,6 +858,33 @@ func ruleMetaAtomicAdd(r *Run, rule string, k *metaKind) {
 			validated[t] = true
 		}
 	})
+	// validation delegated to a package function before the first mutation (`if _, err := toInt64(v); err != nil`): the
+	// types that function accepts pass the validation too
+	allInstrs(fn, func(in ssa.Instruction) {
+		call, ok := in.(*ssa.Call)
+		if !ok || domInstr(first, in) || in == first {
+			return
+		}
+		g := staticCallee(call.Common())
+		if g == nil || g.Pkg != w.SPkg || errIndex(g) < 0 {
+			return
+		}
+		takesIface := false
+		for _, a := range call.Call.Args {
+			if _, ok := a.Type().Underlying().(*types.Interface); ok {
+				takesIface = true
+			}
+		}
+		if !takesIface {
+			return
+		}
+		r.Analysed(w.Name(g))
+		allInstrs(g, func(gi ssa.Instruction) {
+			if ta, ok := gi.(*ssa.TypeAssert); ok && ta.CommaOk {
+				validated[types.TypeString(ta.AssertedType, nil)] = true
+			}
+		})
+	})
 	var bad []string
 	for _, ret := range returnsOf(fn) {
 		if classifyErr(ret) != ErrNonNil {
